@@ -171,7 +171,15 @@ fn main() {
                     _ => "",
                 };
                 let disc = if explicit { format!(" = {}", 200 - 3 * i) } else { String::new() };
-                writeln!(out, "    #[scpi(mnemonic = b\"{m}\")]\n    V{i}{f}{disc},").unwrap();
+                // where the scpi attribute stands among the variant's other attributes is up to the author
+                let (before, after) = match rng.below(8) {
+                    0 => ("    /// documented before\n", ""),
+                    1 => ("", "    /// documented after the scpi attribute\n"),
+                    2 => ("", "    #[allow(dead_code)]\n"),
+                    3 => ("    #[allow(dead_code)]\n", "    #[doc = \"and after\"]\n"),
+                    _ => ("", ""),
+                };
+                writeln!(out, "{before}    #[scpi(mnemonic = b\"{m}\")]\n{after}    V{i}{f}{disc},").unwrap();
             }
             writeln!(out, "}}").unwrap();
             // helpers
